@@ -121,6 +121,8 @@ pub struct Ctx {
 pub struct RunState {
     pub parts: Vec<PartStats>,
     pub violations: Vec<(String, PathBuf)>,
+    /// (part, signature, case) of every reported violation: they are part of what was explored
+    pub violating_cases: Vec<(String, String, Value)>,
     pub known_printed: HashSet<String>,
     pub assumptions: Vec<String>,
     pub extra: BTreeMap<String, Value>,
@@ -283,11 +285,9 @@ impl Ctx {
         let _ = std::fs::write(&path, text);
         eprintln!("violation [{}] {}: {}", label, v.sig, v.msg);
         println!("VIOLATION property={} replay={}", self.id, path.display());
-        self.state
-            .lock()
-            .unwrap()
-            .violations
-            .push((v.sig.clone(), path));
+        let mut st = self.state.lock().unwrap();
+        st.violations.push((v.sig.clone(), path));
+        st.violating_cases.push((label.to_string(), v.sig.clone(), body["case"].clone()));
     }
 
     /// Apply the known-findings policy to a check result inside a case.
@@ -326,9 +326,8 @@ impl Ctx {
         CF: Fn(usize) -> C + Sync,
         C: Fn(&T, &mut Obs) -> CheckResult,
     {
-        if self.failed() {
-            return;
-        }
+        // a violation found by an earlier part does not stop the later parts: they explore other sub-spaces and the
+        // evidence should say what was covered there too (the expensive real-time and fuzz tiers are skipped then)
         let workers = self.workers.max(1).min(total_cases.max(1) as usize);
         let per = total_cases.div_ceil(workers as u64);
         let results: Vec<(PartStats, Option<(Violation, Value)>)> = std::thread::scope(|sc| {
@@ -427,9 +426,6 @@ impl Ctx {
         I: Iterator<Item = T>,
         C: Fn(&T, &mut Obs) -> CheckResult,
     {
-        if self.failed() {
-            return;
-        }
         let mut stats = PartStats::new(label, rule);
         stats.exhaustive = exhaustive;
         for case in items {
@@ -580,6 +576,15 @@ impl Ctx {
                 "exhaustive": p.exhaustive,
             }));
         }
+        // violating cases are (minimal) non-trivial cases by definition; they are listed first
+        let mut vc_hashes: HashSet<u64> = HashSet::new();
+        for (part, sig, case) in st.violating_cases.iter() {
+            if vc_hashes.insert(hash_of(&case.to_string())) {
+                distinct += 1;
+            }
+            samples.insert(0, json!({"part": part, "violating": true, "signature": sig, "case": case}));
+        }
+        evaluations = evaluations.max(st.violating_cases.len() as u64);
         let mut coverage = json!({
             "evaluations": evaluations,
             "distinct_nontrivial": distinct,
